@@ -8,7 +8,7 @@ POOL_STATE_INVS = "TypeOK AtMostOnce WgExact PoolBound WaitBarrier RoundBarrier 
 # (Family, MaxW, MaxS, MaxPer, MaxRounds)
 PLAN = {
     "C12": dict(mc_q=[("full", 2, 2, 2, 2), ("gated", 2, 2, 2, 1), ("early", 2, 2, 2, 1), ("selfwait", 2, 2, 2, 2)],
-                mc_t=[("full", 3, 2, 3, 2), ("gated", 2, 2, 2, 2), ("gated", 3, 2, 2, 1), ("early", 3, 2, 3, 2), ("selfwait", 2, 3, 2, 2)],
+                mc_t=[("full", 3, 2, 3, 2), ("gated", 2, 2, 1, 2), ("gated", 3, 2, 2, 1), ("early", 3, 2, 3, 2), ("selfwait", 2, 3, 2, 2)],
                 gen_q=("small,big,mixed,barrier,latesubmit,full,paced,earlyclose,selfwait", 25), gen_t=("small,big,mixed,barrier,latesubmit,full,paced,earlyclose,selfwait", 500), cap_q=1500, cap_t=20000),
     "C08": dict(mc_q=[("full", 2, 2, 2, 1), ("gated", 2, 1, 3, 1)], mc_t=[("full", 3, 2, 3, 1), ("gated", 3, 1, 3, 1)],
                 gen_q=("barrier,small", 40), gen_t=("barrier,small,mixed", 400), cap_q=600, cap_t=5000),
